@@ -158,7 +158,9 @@ Inductive whop :=
 | HGetV (b k : key) (ty : gty)
 | HTouch (b : key)
 | HUnsetBase (b : key)
-| HList (b k : key).
+| HList (b k : key)
+| HAssignNone (b k : key)                  (* assignment without value: b ++ k present, its value dropped *)
+| HAssignBad (b : key).                    (* refused assignment through a view: its base element is present afterwards *)
 
 Definition wsstep (h : list sop) (o : whop) (acc : bool) : list sop * wout :=
   match o with
@@ -176,6 +178,20 @@ Definition wsstep (h : list sop) (o : whop) (acc : bool) : list sop * wout :=
            end
     end
   | HList b k => (h, WOut (OutEntry (squery h b k)))
+  | HAssignNone b k =>
+    match b ++ k with
+    | [] => (h, WOut (OutRc RcRefused))
+    | q =>
+      (* [acc]: the element still holds a value afterwards - the value's own decision (a
+         value that is an iterator is rewound in place, anything else is dropped) *)
+      if acc then (STouch q :: h, WOut (OutRc RcOk))
+      else (SUnset q :: STouch q :: h, WOut (OutRc RcCleared))
+    end
+  | HAssignBad b =>
+    match b with
+    | [] => (h, WOut (OutRc RcRefused))
+    | _ => (STouch b :: h, WOut (OutRc RcRefused))
+    end
   end.
 
 Definition waccepted (o : wout) : bool :=
